@@ -122,6 +122,7 @@ static std::string ckey(const Paths& S, const Paths& C, const Paths& O, int ct, 
 
 static void check_input(Reporter& rep, const Paths& S, const Paths& C, const Paths& O, bool verbose = false, int only_ct = 0, int only_fr = -1) {
   int cur_ct = 0, cur_fr = 0; const char* cur_api = "paths";
+  arm_watchdog(60);   // CPU-time limit per input: a library call that does not return is attributed to this case (crash_signal_26)
   rep.current_case = [&]() { return ckey(S, C, O, cur_ct, cur_fr, cur_api); };
   Paths all = S; all.insert(all.end(), C.begin(), C.end());
   for (int ct = 1; ct <= 4; ++ct) for (int fr = 0; fr < 4; ++fr) {
@@ -175,7 +176,7 @@ static void check_input(Reporter& rep, const Paths& S, const Paths& C, const Pat
     if (!why.empty()) { std::string tag = why.substr(0, why.find(':')); size_t sl = tag.find('/'); if (sl != std::string::npos) tag = tag.substr(sl + 1);
       rep.violation("C05", ckey(S, C, O, ct, fr, why.rfind("tree/", 0) == 0 ? "tree" : "paths"), tag, why + " open_solution=" + pstr(why.rfind("tree/", 0) == 0 ? t.open : p.open)); }
   }
-  rep.current_case = nullptr;
+  arm_watchdog(0); rep.current_case = nullptr;
 }
 
 int main(int argc, char** argv) {
